@@ -45,6 +45,7 @@ type codeWorld struct {
 	codes    []*issuedCode
 	browsers []*world.Browser
 	n        int
+	faulty   bool
 }
 
 func (cw *codeWorld) startAuth(ch *kernel.Chooser, client string) string {
